@@ -81,6 +81,9 @@ type c19Case struct {
 	Rounds int       `json:"rounds,omitempty"`
 	// session
 	Field string `json:"field,omitempty"` // a saved option without URL parameter
+	// restart: leftover temp files (name suffix after "settings.json", length of the prefix of the new
+	// contents they hold; -1 = garbage) next to the old settings file
+	Leftovers []c19Leftover `json:"leftovers,omitempty"`
 	Note   string    `json:"note,omitempty"`
 }
 
@@ -675,7 +678,7 @@ func c19SeqKey(cs c19Case) string {
 
 func runC19(c *Ctx) {
 	c.Res.Rule = "(i) random sequences (4-12 steps, optional hand-written seed file) of /saveconfig (random subset of URL-carried options; per kind canonical, alternative, invalid and unset spellings), /deleteconfig, menu reads and apply (follow a menu URL, save under a new name) against the real handlers; non-trivial = a save with >=1 non-default option followed by a delete or apply; (i'') a fixed grid of 36 histories on one server: {save existing, save new, delete} whose write fails after {0, 1, half, all-but-one} bytes (RLIMIT_FSIZE in-process) followed by {save other, delete other, menu+apply}; (i') 120 histories of 7-20 steps on ONE server over 2-3 names (30% plain; 50% a URL-encoded-looking name together with its one- and two-fold URL decodings; 20% awkward: %, +, &, =, #, ?, /, quotes, unicode, 2.8 kB) x 2-3 fixed option sets, requests form-encoded as common.js does or raw with %20 with exactly repeated requests (30% of requests repeat an earlier one), deletes, menu reads and external edits of settings.json between requests (entry dropped, file removed), each step judged against the model and the direct oracle; non-trivial = some request occurs twice; " +
-		"(ii) one strace'd save per protocol scenario mapped to model ops and judged by fs.accepts; (iii) write error / kill at every write syscall, every byte position (RLIMIT_FSIZE sweep) and at rename; (iv) rounds of 16 concurrent save/delete requests, final file judged per name against all serial orders by the model; distinct by canonical case text"
+		"(ii) one strace'd save per protocol scenario mapped to model ops and judged by fs.accepts; (iii) write error / kill at every write syscall, every byte position (RLIMIT_FSIZE sweep) and at rename; after EVERY injected fault and on a grid of synthetic directories (old file + leftover settings.json.tmp* holding a prefix of the new contents of length {0,1,half,all-but-one,all} or garbage) the web UI is RESTARTED (fresh instance through the HTTPServer hook) and the file must still be old or new, the menu must list it and a further save must work; one restart runs under strace and must not modify the settings file (fs.accepts with old = new); (iv) rounds of 16 concurrent save/delete requests, final file judged per name against all serial orders by the model; distinct by canonical case text"
 	scratch := filepath.Join(c.Dir, fmt.Sprintf("scratch-%d", os.Getpid()))
 	os.RemoveAll(scratch)
 	if err := os.MkdirAll(scratch, 0o755); err != nil {
@@ -717,6 +720,8 @@ func runC19(c *Ctx) {
 			e.runConc(cs)
 		case "session":
 			e.runSession(cs)
+		case "restart":
+			e.runRestart(cs)
 		}
 		return
 	}
@@ -724,6 +729,8 @@ func runC19(c *Ctx) {
 	r := NewRng(c.Seed)
 	// (ii) + (iii): protocol of one save, traced and fault-injected
 	e.traceAndFaults(r)
+	// (iii'): restart on directories with leftover temp files
+	e.restarts(r)
 	// (iv): concurrent requests
 	e.concurrent(r)
 	// saved options the URL cannot carry (separate stream)
